@@ -64,6 +64,12 @@ def dump_bytecode(src):
     return ("ok", d0, cdump(flow.scfg))
 
 
+def c12_lx():
+    """A fixed slice of the multi-entry multi-exit loop family: loops with several headers entered from several blocks."""
+    from ..families import loop_exit_family
+    return loop_exit_family(3, 3)[::40]
+
+
 def c12_labelings(g):
     """Relabellings explored in addition to the BFS naming: names that interleave sibling loops / arms (evens-then-odds) and names
     that tie under numeric / case-folded keys.  Small classes get all three; larger front-end graphs alternate (by a
@@ -145,7 +151,7 @@ def _work(args):
 
 def corpus(tier):
     from ..sweep import frontend_graphs
-    graphs = [g for n in range(1, 5) for g in enum_closed(n)] + list(frontend_graphs(2))
+    graphs = [g for n in range(1, 5) for g in enum_closed(n)] + list(frontend_graphs(2)) + c12_lx()
     progs = list(skeleton_sources(1, "marked")) + list(skeleton_sources(1, "bare"))
     return graphs, progs
 
@@ -192,6 +198,8 @@ def run(tier: str, seed: int):
         from ..sweep import frontend_graphs
         s2g = frontend_graphs(2)       # CFGs of the source front end for S(<=2): up to 9 blocks, loops with several latches
         units += [("graphs", ("L", "S2", s2g[i:i + 6]), 1) for i in range(0, len(s2g), 6)]
+        lxg = c12_lx()
+        units += [("graphs", ("L", "LX", lxg[i:i + 4]), 1) for i in range(0, len(lxg), 4)]
         s1 = list(skeleton_sources(1, "marked")) + list(skeleton_sources(1, "bare"))
         units += [("progs", s1[i:i + 8], 1) for i in range(0, len(s1), 8)]
     else:
